@@ -48,6 +48,8 @@ type Input struct {
 	Perm    []int  `json:"perm"`
 	Feed    []int  `json:"feed"`
 	Pull    []int  `json:"pull"`
+	// PullPorts, when present, gives every device port of B its own drain script (ports stall and drain independently)
+	PullPorts [][]int `json:"pull_ports,omitempty"`
 }
 
 // stub is the component that owns the device ports and the far side of the network ports.
@@ -97,6 +99,13 @@ func zz(x int64) string {
 		return hx.N(uint64(2 * x))
 	}
 	return hx.N(uint64(-2*x - 1))
+}
+
+func pullOf(in Input, port int) []int {
+	if port < len(in.PullPorts) && len(in.PullPorts[port]) > 0 {
+		return in.PullPorts[port]
+	}
+	return in.Pull
 }
 
 func cyc(l []int, t int) int {
@@ -258,8 +267,8 @@ func run(raw json.RawMessage) (hx.Case, error) {
 				}
 				epB.Tick()
 				var taken, js []string
-				take := cyc(in.Pull, t)
 				for pi, p := range bPorts {
+					take := cyc(pullOf(in, pi), t)
 					for i := 0; i < take; i++ {
 						m := p.RetrieveIncoming()
 						if m == nil {
@@ -290,11 +299,15 @@ func run(raw json.RawMessage) (hx.Case, error) {
 		}
 		return hx.L(s)
 	}
+	var pulls []string
+	for pi := range bPorts {
+		pulls = append(pulls, toN(pullOf(in, pi)))
+	}
 	c := hx.Case{Obs: o}
 	c.Coq = hx.App("mk_case", zz(in.Flit), hx.N(in.OvNum), hx.N(uint64(in.OvExp)),
 		hx.N(uint64(in.NIn)), hx.N(uint64(in.NOut)), hx.N(aNetID), hx.N(aSwID),
 		hx.L(msgsCoq), hx.N(uint64(in.APorts)), hx.N(uint64(in.ANetCap)), toN(in.Drain),
-		hx.L(bPortsCoq), hx.N(uint64(in.BNetCap)), toN(in.Perm), toN(in.Feed), toN(in.Pull), oa, ob)
+		hx.L(bPortsCoq), hx.N(uint64(in.BNetCap)), toN(in.Perm), toN(in.Feed), hx.L(pulls), oa, ob)
 	// tags
 	multi, exact, reordered, withheld := false, false, false, len(in.Perm) < len(emitted)
 	for _, m := range in.Msgs {
@@ -324,6 +337,9 @@ func run(raw json.RawMessage) (hx.Case, error) {
 	}
 	if withheld {
 		c.Tags = append(c.Tags, "flits-withheld")
+	}
+	if len(in.BCaps) > 1 && len(in.PullPorts) > 0 {
+		c.Tags = append(c.Tags, "multi-port-receiver-independent-drain")
 	}
 	if in.Flit <= 0 {
 		c.Tags = append(c.Tags, "bad-flit-size")
